@@ -96,9 +96,9 @@ PROPS = {
     },
     "C17": {
         "modules": ["Hannibal.Props.C17", "Hannibal.Props.C17Current",
-                    "Hannibal.Props.C17N", "Hannibal.Props.C17NCurrent"],
+                    "Hannibal.Props.C17N", "Hannibal.Props.C17NCurrent", "Hannibal.Props.C17R"],
         "theorems": ["Hannibal.C17_holds", "Hannibal.C17_current",
-                     "Hannibal.C17n_holds", "Hannibal.C17n_current"],
+                     "Hannibal.C17n_holds", "Hannibal.C17n_current", "Hannibal.C17r_holds"],
         "cases": {"quick": {"C17": 1500}, "thorough": {"C17": 20000, "x:C17": 320, "C04": 3000}},
         "assumptions": COMMON_ASSUMPTIONS + [
             "when None is allowed (monC17n) is theorem C17n_holds under fresh operation ids and consumeLast (no join / "
